@@ -43,6 +43,17 @@ CHECKS = {
              'explicit / inherited / umask permissions. Bounded model checking.',
         note='Trusted: fakeos model, CrossHair/z3. Fault sites are the steps the statement lists; stat/lexists/unlink/fdopen are not fault sites.',
         ref='C05'),
+    'C06': dict(
+        technique='z3 lemma over the module\'s quoting tables (symbolic byte) + bounded symbolic execution (CrossHair/z3 string theory) of '
+                  'from_parts/to_text/URL()/quote_*_part/unquote with a symbolic ASCII character per component; totality over an explicit alphabet',
+        text='(1) For each of the four *_QUOTE_MAP tables read from the imported module and a symbolic byte: emitted raw only if RFC 3986 allows '
+             'the character at that position, otherwise %XX of itself; _HEX_CHAR_MAP inverts every escape (unsat queries). (2) For each of six '
+             'components a symbolic ASCII character between two context characters: all components recovered after full-quote render + parse, '
+             'nothing leaks, rendered characters legal, unquote(quote(v)) == v, full-quote and (no %) minimal-quote fixed points. (3) URL(text) '
+             'returns or raises URLParseError and find_all_links never raises, for a free character from all ASCII + 18 non-ASCII class '
+             'representatives alone and inside 11 skeletons. Bounded model checking.',
+        note='Trusted: CrossHair string/regex model, z3, RFC sets written in the harness, NFC == identity on ASCII (stub). Outside: non-ASCII component text beyond the byte-level lemma, longer values, rendering totality.',
+        ref='C06'),
     'C07': dict(
         technique='bounded symbolic execution (CrossHair/z3) of the real URL.navigate/normalize against an oracle written from RFC 3986 5.2.2/5.2.4/5.3; '
                   'reference shape solver-chosen, one path segment as a symbolic string',
